@@ -145,6 +145,15 @@ def check(ctx):
         runs.append(("closest: query and target of different widths", ["closest", "--query", longer, "--target", alnp], None))
         runs.append(("closest -n: query and target of different widths", ["closest", "--query", alnp, "--target", longer, "-n", "2"], None))
         runs.append(("topranking: target of different width", ["updown", "topranking", "-r", ref, "-q", alnp, "-t", longer, "--dist-all", "50"], None))
+        # ... and the other way round: every file NARROWER than its companion
+        narrower = W("narrower.fasta", fasta([(nm, s[:-1]) for nm, s in aln]))
+        for name in ("snps", "updown list"):
+            runs.append((name + ": alignment narrower than the reference", sub(base[name], alnp, narrower), None))
+        for extra in ([], ["-n", "2"], ["-n", "2", "--table"], ["-d", "3", "-m", "snp"], ["-n", "1", "-m", "tn93"]):
+            runs.append(("closest %s: target narrower than the query" % " ".join(extra), ["closest", "--query", alnp, "--target", narrower] + extra, None))
+            runs.append(("closest %s: query narrower than the target" % " ".join(extra), ["closest", "--query", narrower, "--target", alnp] + extra, None))
+        runs.append(("topranking: target narrower than the reference", ["updown", "topranking", "-r", ref, "-q", alnp, "-t", narrower, "--dist-all", "50"], None))
+        runs.append(("topranking: query narrower than the reference", ["updown", "topranking", "-r", ref, "-q", narrower, "-t", alnp, "--dist-all", "50"], None))
         runs.append(("variants: msa narrower than the annotation", sub(base["variants gff"], msa, W("short.fasta", fasta([("REF", genome[:-3])] + [(nm, s[:-3]) for nm, s in aln]))), None))
         # two records in --reference
         two = W("tworefs.fasta", fasta([("REF", genome), ("REF2", genome)]))
